@@ -90,6 +90,10 @@ def generate(ck):
                 "threads": bool(i % 25 == 3),
             }
         )
+        if i == 5:
+            d5 = descs[-1]
+            Tg_ = d5["Tr"] * (d5["Tpc"] + 459.67) - 459.67
+            descs.append({"kind": "interpreters", "payload": {"gas": [[Tg_, pr_ * d5["ppc"], d5["Tpc"], d5["ppc"], d5["sg"]] for pr_ in (0.5, 3.0, 12.0)], "oil": [[*d5["oil"][:1], p_, *d5["oil"][1:]] for p_ in d5["oil_p"][:3]], "water": [[d5["water"][0], p_, d5["water"][1]] for p_ in d5["water_p"][:2]]}})
         if i % 12 == 6:
             # the same gas quantities as columns of the table build_pvt_gas makes
             descs[-1]["table"] = {"comp": wl.gas_composition(np.random.default_rng(1000 * int(ck.seed) + i)), "pmax": [400, 1200.0, 3010, 6000.0][(i // 12) % 4]}
@@ -136,7 +140,44 @@ def _table_columns(ck, desc):
     ck.count("tables_judged")
 
 
+_CHILD_CODE = (
+    "from bluebonnet.fluids import gas, oil, water\n"
+    "result = []\n"
+    "for T, p, Tpc, ppc, sg in payload['gas']:\n"
+    "    result.append([float(gas.density_DAK(T, p, Tpc, ppc, sg)), float(gas.b_factor_DAK(T, p, Tpc, ppc)), float(gas.compressibility_DAK(T, p, Tpc, ppc)), float(gas.viscosity_Sutton(T, p, Tpc, ppc, sg))])\n"
+    "for T, p, api, gg, gor in payload['oil']:\n"
+    "    result.append([float(oil.density_Standing(T, p, api, gg, gor)), float(oil.b_o_Standing(T, p, api, gg, gor))])\n"
+    "for T, p, sal in payload['water']:\n"
+    "    result.append([float(water.density_water_McCain(T, p, sal)), float(water.b_water_McCain(T, p))])\n"
+)
+
+
+def _interpreter_case(ck, desc):
+    """The same state points asked in child interpreters started plain, with -O and with -OO (no asserts, no
+    docstrings): the library imports and answers exactly what it answers here."""
+    import json
+
+    g_ = {"np": np, "payload": desc["payload"]}
+    exec(_CHILD_CODE, g_)  # noqa: S102  (the very same source, run here)
+    here = json.loads(json.dumps(g_["result"]))
+    got = instrument.values_under_interpreter_flags(_CHILD_CODE, desc["payload"], [(), ("-O",), ("-OO",), ("-X", "dev")])
+    for flags, res in got.items():
+        label = " ".join(flags) or "plain"
+        if isinstance(res, str) and res.startswith("inconclusive"):
+            ck.inconclusive_because(f"child interpreter ({label}): {res[:200]}")
+        elif isinstance(res, str):
+            ck.violation("same-answers-in-every-interpreter", {"interpreter": "python " + label, "outcome": res[:300]}, desc)
+        elif res != here:
+            k_ = next(i for i, (a, b) in enumerate(zip(res, here)) if a != b)
+            ck.violation("same-answers-in-every-interpreter", {"interpreter": "python " + label, "item": k_, "there": res[k_], "here": here[k_]}, desc)
+        else:
+            ck.count("state_points_re-evaluated_in_child_interpreters", len(res))
+    return True, {"children": len(got)}
+
+
 def run_case(ck, desc):
+    if desc.get("kind") == "interpreters":
+        return _interpreter_case(ck, desc)
     from bluebonnet.fluids import gas, oil, water
 
     Tr, Tpc, ppc, sg = desc["Tr"], desc["Tpc"], desc["ppc"], desc["sg"]
